@@ -28,6 +28,8 @@ fn renderings(s: &ASchema) -> Vec<(&'static str, bool, String)> {
         ("json-data-wrapped", true, js(&RenderKnobs { json_wrapped: true, ..d.clone() })),
         ("json-without-builtins", true, js(&RenderKnobs { json_builtins: false, ..d.clone() })),
         ("json-without-directives", true, js(&RenderKnobs { json_directives: false, ..d.clone() })),
+        ("sdl-input-directive-extensions", false, s.to_sdl(&RenderKnobs { input_directive_extensions: true, ..d.clone() })),
+        ("json-data-wrapped-with-response-members", true, js(&RenderKnobs { json_wrapped: true, json_response_members: true, ..d.clone() })),
     ]
 }
 
@@ -55,7 +57,7 @@ pub fn run(a: &Args) -> i32 {
     let mut rep = Report::new(
         "C07",
         a,
-        "random abstract schemas (objects, interfaces, unions, enums, custom scalars, input objects incl. @oneOf and recursion, deprecations, extend-type fields, explicit or default root names) rendered 11 ways (6 SDL: plain, explicit schema block, extend type, extend type with `implements` and one block per field, re-declared built-in scalars, input-field defaults; 5 JSON: bare, data-wrapped, without built-ins, without directives, input-field defaults) plus one type-order permutation, each with one random document and option set; a case = one (schema, rendering) pair whose output is compared with the plain SDL rendering's; non-trivial = the schema has at least one of: interface, union, @oneOf input, deprecation, extension fields, custom root names",
+        "random abstract schemas (objects, interfaces, unions, enums, custom scalars, input objects incl. @oneOf and recursion, deprecations, extend-type fields, explicit or default root names) rendered 14 ways (8 SDL: plain, explicit schema block, extend type, extend type with `implements` and one block per field, extensions first, re-declared built-in scalars, input-field defaults, directive-only `extend input` blocks; 6 JSON: bare, data-wrapped, data-wrapped with `errors` / `extensions` members after `data`, without built-ins, without directives, input-field defaults; type names incl. ones with a single leading underscore) plus one type-order permutation, each with one random document and option set; a case = one (schema, rendering) pair whose output is compared with the plain SDL rendering's; non-trivial = the schema has at least one of: interface, union, @oneOf input, deprecation, extension fields, custom root names",
     );
     let mut rng = Rng::new(a.seed);
     let mut ctx = CaseCtx::new();
@@ -186,6 +188,62 @@ pub fn run(a: &Args) -> i32 {
             }
         }
     }
+    // ---- fixed witnesses of the open finding `sdl-extension-of-a-non-object-type-ignored`: the SDL front-end folds
+    // `extend type` only; `extend input / enum / union / interface` are dropped silently, so the SDL that uses them and the
+    // introspection JSON of the same schema generate different code (or one of them refuses the operation)
+    for (kind, folded, sdl_ext, qtext) in extension_witnesses() {
+        let opts = Opts::harness();
+        let d = RenderKnobs::default();
+        let reference = ctx.run(&folded.to_sdl(&d), false, &qtext, &opts);
+        let json_text = serde_json::to_string_pretty(&folded.to_json(&d)).unwrap();
+        for (name, is_json, text) in [("json-bare", true, json_text.clone()), ("sdl-with-extension", false, sdl_ext.clone())] {
+            let res = ctx.run(&text, is_json, &qtext, &opts);
+            rep.case(Some(&format!("ext|{}|{}", kind, name)));
+            rep.count(&format!("rendering:{}-of-{}-extension-witness", name, kind));
+            if !res.diffs.is_empty() {
+                rep.disagree(json!({"rendering": name, "diffs": res.diffs.iter().take(5).collect::<Vec<_>>(), "schema": text, "query": qtext}));
+            } else {
+                rep.traces_validated += 1;
+            }
+            let same = match (&reference.real, &res.real) {
+                (RealOutcome::Ok(a), RealOutcome::Ok(b)) => a == b,
+                (x, y) => x.kind() == y.kind(),
+            };
+            if !same {
+                let class = if is_json { "front-ends-differ:json-bare".to_string() } else { "sdl-extension-of-a-non-object-type-ignored".to_string() };
+                rep.fail(&class, json!({"extension_of": kind, "rendering": name, "schema_reference": folded.to_sdl(&d), "schema": text, "query": qtext,
+                    "reference_outcome": reference.real.kind(), "outcome": res.real.kind()}));
+            }
+        }
+    }
     rep.extra.insert("model_requests".into(), json!(ctx.model.requests));
     rep.finish()
+}
+
+/// (kind of the extended type, the schema with the extension folded in, the SDL text that writes it as an extension, a document
+/// that observes the difference)
+fn extension_witnesses() -> Vec<(&'static str, ASchema, String, String)> {
+    let f = |n: &str, t: ATy| AField { name: n.into(), ty: t, dep: None };
+    let obj = |name: &str, implements: Vec<&str>, fields: Vec<AField>| AType::Object { name: name.into(), implements: implements.into_iter().map(String::from).collect(), fields, ext_fields: vec![] };
+    let mk = |filter_extra: bool, blue: bool, node_extra: bool, b_member: bool| ASchema {
+        types: vec![
+            AType::Input { name: "Filter".into(), one_of: false, fields: if filter_extra { vec![("a".into(), ATy::named("Int")), ("extra".into(), ATy::named("Int"))] } else { vec![("a".into(), ATy::named("Int"))] } },
+            AType::Enum { name: "Colour".into(), values: if blue { vec!["RED".into(), "BLUE".into()] } else { vec!["RED".into()] } },
+            AType::Interface { name: "Node".into(), fields: if node_extra { vec![f("id", ATy::named("ID")), f("extra", ATy::named("Int"))] } else { vec![f("id", ATy::named("ID"))] } },
+            obj("A", vec!["Node"], vec![f("id", ATy::named("ID")), f("extra", ATy::named("Int"))]),
+            obj("B", vec![], vec![f("x", ATy::named("Int"))]),
+            AType::Union { name: "U".into(), members: if b_member { vec!["A".into(), "B".into()] } else { vec!["A".into()] } },
+            obj("Query", vec![], vec![f("colour", ATy::named("Colour")), f("n", ATy::named("Node")), f("u", ATy::named("U")), f("echo", ATy::named("Int"))]),
+        ],
+        query: Some("Query".into()),
+        mutation: None,
+        subscription: None,
+    };
+    let base = mk(false, false, false, false).to_sdl(&RenderKnobs::default());
+    vec![
+        ("input", mk(true, false, false, false), format!("{}extend input Filter {{\n  extra: Int\n}}\n", base), "query Q($f: Filter) {\n  echo\n}\n".to_string()),
+        ("enum", mk(false, true, false, false), format!("{}extend enum Colour {{\n  BLUE\n}}\n", base), "query Q {\n  colour\n}\n".to_string()),
+        ("interface", mk(false, false, true, false), format!("{}extend interface Node {{\n  extra: Int\n}}\n", base), "query Q {\n  n {\n    __typename\n    extra\n  }\n}\n".to_string()),
+        ("union", mk(false, false, false, true), format!("{}extend union U = B\n", base), "query Q {\n  u {\n    __typename\n  }\n}\n".to_string()),
+    ]
 }
